@@ -1651,3 +1651,19 @@ mut("x-c03-moved-skip-state-overshoots", "C03", "src/parser/request/skip.rs",
     """        if let Some(new_payload_rem @ 1..) = payload.checked_sub(data.len()) {""",
     """        if let Some(new_payload_rem @ 1..) = payload.checked_sub(data.len() + 1) {""",
     "R3.11/SkipState::drive", "the skip arithmetic is off by one (SkipState lives in a new submodule)", base="a1-r1")
+
+# ---- round l follow-ups ----------------------------------------------------------------------------------
+mut("c07-own-lock-bound-not-dropped", "C07", A,
+    """        std::mem::drop(self.lock);
+        let writers = Arc::strong_count(&self.output) - 1;""",
+    """        let _held = self.lock;
+        let writers = Arc::strong_count(&self.output) - 1;""",
+    "R7.10/close/own-lock-released", "the request's own output lock is moved into a binding that lives to the end of close(): try_unwrap can then only time out on itself")
+mut("c01-stuck-verdict-for-finished-parser", "C01", "src/parser/request.rs",
+    """        if !done && self.input_len == self.input.len() {""",
+    """        if (!done || rem_len > 0) && self.input_len == self.input.len() {""",
+    "R1.9/parse/stuck-detection", "a finished parser whose buffer is filled with look-ahead is overwritten with StuckOnInput")
+mut("c05-stuck-verdict-for-finished-parser", "C05", "src/parser/request.rs",
+    """        if !done && self.input_len == self.input.len() {""",
+    """        if (!done || rem_len > 0) && self.input_len == self.input.len() {""",
+    "R5.8/parse/stuck-detection", "a finished parser whose buffer is filled with look-ahead is overwritten with StuckOnInput")
